@@ -188,10 +188,14 @@ def gen_program(rng, shape=None, n=None, edges=None):
                 rules.append(((p, tuple(C(rng.randrange(n)) for _ in range(arity[p]))), []))
         sld_finite = shape == "nonrec"
     # clause order is irrelevant for the specification: shuffle the clauses of every predicate
-    if shape != "rightdag" or True:
-        rng.shuffle(rules)
-    return {"n": n, "arity": {str(k): v for k, v in arity.items()}, "edb": edb, "idb": idb,
+    # (clauses of one predicate stay contiguous: discontiguous clauses need a directive in Prolog)
+    rng.shuffle(rules)
+    rules.sort(key=lambda r: r[0][0])
+    prog = {"n": n, "arity": {str(k): v for k, v in arity.items()}, "edb": edb, "idb": idb,
             "rules": rules, "shape": shape, "sld_finite": sld_finite}
+    if sld_finite and sld_cost(prog) > 20000:
+        prog["sld_finite"] = False
+    return prog
 
 
 def gen_queries(rng, prog, maxq):
@@ -256,11 +260,65 @@ def esc(s):
     return s.replace("\\", "\\\\").replace("\n", "\\n").replace("\t", "\\t")
 
 
+def qvars(q):
+    vs = []
+    for a in q[1]:
+        if a[0] == "v" and a[1] not in vs:
+            vs.append(a[1])
+    return vs
+
+
+def parse_untabled(text, q):
+    """`{L=['tt'('a',1),…],L0=…}` -> set of answer tuples, or None"""
+    m = re.fullmatch(r"\{L=(\[.*\]),L0=.*\}", text)
+    if not m:
+        return None
+    vs = qvars(q)
+    out = set()
+    body = m.group(1)[1:-1]
+    if not body:
+        return out
+    if not vs:
+        return {()} if body == "'tt'" else None
+    for t in re.findall(r"'tt'\(([^()]*)\)", body):
+        cs = [CANON.get(x) for x in t.split(",")]
+        if None in cs or len(cs) != len(vs):
+            return None
+        out.add(tuple(sorted(zip(vs, cs))))
+    return out
+
+
+def sld_cost(prog):
+    """crude upper bound on the number of SLD derivations of a most general call (non-recursive programs)"""
+    n = prog["n"]
+    memo = {}
+
+    def cost(p, depth=0):
+        if p in memo:
+            return memo[p]
+        if depth > 8:
+            return 10 ** 9
+        tot = 0
+        for h, b in prog["rules"]:
+            if h[0] != p:
+                continue
+            c = 1
+            for x in b:
+                c *= max(1, cost(x[0], depth + 1))
+            tot += c
+        memo[p] = tot
+        return tot
+    return max([cost(p) for p in prog["idb"]] + [0])
+
+
+def norm_atom(at):
+    return (at[0], tuple((a[0], a[1]) for a in at[1]))
+
+
 def make_tab_case(cid, prog, queries):
     prog = dict(prog)
-    prog["rules"] = [(tuple(h[:1]) + (tuple(map(tuple, h[1])),), [(b[0], tuple(map(tuple, b[1]))) for b in bs])
-                     for h, bs in prog["rules"]]
-    queries = [(q[0], tuple(map(tuple, q[1]))) for q in queries]
+    prog["rules"] = [(norm_atom(h), [norm_atom(b) for b in bs]) for h, bs in prog["rules"]]
+    queries = [norm_atom(q) for q in queries]
     impl = ["Q\t%su\t1\tuse_module(library(tabling))." % cid,
             "L\t%sl\tuser\t%s" % (cid, esc(render_program(prog, cid)))]
     for j, q in enumerate(queries):
@@ -268,7 +326,9 @@ def make_tab_case(cid, prog, queries):
     if prog["sld_finite"]:
         impl.append("L\t%sm\tuser\t%s" % (cid, esc(render_program(prog, cid, tabled=False, sfx="n"))))
         for j, q in enumerate(queries):
-            impl.append("Q\t%sn%d\t4000\t%s." % (cid, j, render_atom(q, cid, "n")))
+            vs = qvars(q)
+            tmpl = "tt(%s)" % ",".join("V%d" % v for v in vs) if vs else "tt"
+            impl.append("Q\t%sn%d\t2\tfindall(%s, %s, L0), sort(L0, L)." % (cid, j, tmpl, render_atom(q, cid, "n")))
     model = ["lfp\t%sM\t%s\t%s\t%d %s" % (cid, " ".join(str(i) for i in range(prog["n"])), enc_program(prog),
                                            len(queries), " ".join(enc_atom(q) for q in queries))]
     return {"id": cid, "fam": "tabling", "prog": prog, "queries": queries, "impl": impl, "model": model,
@@ -377,9 +437,9 @@ def gen_tab_cases(rng, tier):
     cases = []
     k = 0
     if tier == "quick":
-        nrand, maxq = 260, 6
+        nrand, maxq = 150, 6
     else:
-        nrand, maxq = 4000, 8
+        nrand, maxq = 2000, 8
     # exhaustive small graphs (thorough: all 512 digraphs on 3 nodes incl. loops x 3 shapes;
     # quick: all 16 digraphs on 2 nodes x 3 shapes)
     nn = 2 if tier == "quick" else 3
@@ -459,12 +519,342 @@ def judge_tab(c, impl, model, findings, stats, verbose=False):
         if prog["sld_finite"]:
             stats["untabled_checked"] += 1
             raw2 = impl.get("%sn%d" % (cid, j), "missing")
-            st2, ans2 = parse_impl_answers(raw2)
-            if st2 != "ok" or set(ans2) != set(ans):
+            ans2 = parse_untabled(raw2, q)
+            if ans2 is None or ans2 != set(ans):
                 findings.append(core.Finding("violation", dict(sig, what="tabled-vs-untabled"),
                                              "untabled %s: %s ; tabled: %s" % (render_atom(q, cid, "n"), raw2[:200], raw[:200]), keep))
                 ok_all = False
     return ok_all
+
+
+# ====================================================================== family `cont` (part A)
+# terms: ("v", name) | ("i", n) | ("a", name) | ("s", functor, [args]) ; lists through lst()
+
+def S(f, *args):
+    return ("s", f, list(args)) if args else ("a", f)
+
+
+def A(n):
+    return ("a", n)
+
+
+def I(n):
+    return ("i", n)
+
+
+def Vr(n):
+    return ("v", n)
+
+
+def lst(xs, tail=None):
+    t = tail if tail is not None else A("[]")
+    for x in reversed(xs):
+        t = ("s", ".", [x, t])
+    return t
+
+
+def conj(*gs):
+    gs = [g for g in gs]
+    t = gs[-1]
+    for g in reversed(gs[:-1]):
+        t = S(",", g, t)
+    return t
+
+
+def ite(c, t, e):
+    return S(";", S("->", c, t), e)
+
+
+def canon(t):
+    k = t[0]
+    if k == "v":
+        return t[1]
+    if k == "i":
+        return str(t[1])
+    if k == "a":
+        return "[]" if t[1] == "[]" else "'%s'" % t[1]
+    return "'%s'(%s)" % (t[1], ",".join(canon(x) for x in t[2]))
+
+
+def cont_library(sfx):
+    """the fixed clauses: generators, handlers (with forwarding of the effects they do not handle)"""
+    P = lambda n, *a: S(n + sfx, *a)
+    X, Xs, G, L, B, C, K, N, N1, S0, S1, Sv, Y, E = (Vr(n) for n in
+                                                      ("X", "Xs", "G", "L", "B", "C", "K", "N", "N1", "S0", "S1", "Sv", "Y", "E"))
+    sh = lambda t: S("shift", t)
+    cl = []
+    cl.append((P("fromlist", A("[]")), None))
+    cl.append((P("fromlist", lst([X], Xs)), conj(sh(S("yield", X)), P("fromlist", Xs))))
+    cl.append((P("countdown", N), ite(S("=<", N, I(0)), A("true"),
+                                      conj(sh(S("yield", N)), S("is", N1, S("-", N, I(1))), P("countdown", N1)))))
+    # collect all yielded values
+    cl.append((P("collect", G, L), conj(S("reset", G, B, C), P("collect_", C, B, L))))
+    cl.append((P("collect_", A("none"), B, A("[]")), None))
+    cl.append((P("collect_", S("cont", K), S("yield", X), lst([X], L)), P("collect", K, L)))
+    cl.append((P("collect_", S("cont", K), S("get", X), L), conj(sh(S("get", X)), P("collect", K, L))))
+    cl.append((P("collect_", S("cont", K), S("put", X), L), conj(sh(S("put", X)), P("collect", K, L))))
+    # the first N yielded values, then the continuation is dropped
+    cl.append((P("take", N, G, L), ite(S("=<", N, I(0)), S("=", L, A("[]")),
+                                       conj(S("reset", G, B, C), P("take_", C, B, N, L)))))
+    cl.append((P("take_", A("none"), B, N, A("[]")), None))
+    cl.append((P("take_", S("cont", K), S("yield", X), N, lst([X], L)),
+               conj(S("is", N1, S("-", N, I(1))), P("take", N1, K, L))))
+    cl.append((P("take_", S("cont", K), S("get", X), N, L), conj(sh(S("get", X)), P("take", N, K, L))))
+    cl.append((P("take_", S("cont", K), S("put", X), N, L), conj(sh(S("put", X)), P("take", N, K, L))))
+    # state handler
+    cl.append((P("runstate", G, S0, Sv), conj(S("reset", G, B, C), P("st_", C, B, S0, Sv))))
+    cl.append((P("st_", A("none"), B, Sv, Sv), None))
+    cl.append((P("st_", S("cont", K), S("get", X), S0, Sv), conj(S("=", X, S0), P("runstate", K, S0, Sv))))
+    cl.append((P("st_", S("cont", K), S("put", X), S0, Sv), P("runstate", K, X, Sv)))
+    cl.append((P("st_", S("cont", K), S("yield", X), S0, Sv), conj(sh(S("yield", X)), P("runstate", K, S0, Sv))))
+    cl.append((P("incr"), conj(sh(S("get", X)), S("is", Y, S("+", X, I(1))), sh(S("put", Y)))))
+    # sum of the yielded numbers, computed AFTER the rest of the generator has run
+    cl.append((P("sumall", G, Sv), conj(S("reset", G, B, C), P("sum_", C, B, Sv))))
+    cl.append((P("sum_", A("none"), B, I(0)), None))
+    cl.append((P("sum_", S("cont", K), S("yield", X), Sv), conj(P("sumall", K, S1), S("is", Sv, S("+", S1, X)))))
+    return cl
+
+
+class ContGen:
+    def __init__(self, rng, sfx):
+        self.rng, self.sfx, self.nv, self.npred = rng, sfx, 0, 0
+        self.extra = []      # user predicates (head, body)
+        self.features = set()
+
+    def P(self, n, *a):
+        return S(n + self.sfx, *a)
+
+    def fresh(self):
+        self.nv += 1
+        return Vr("V%d" % self.nv)
+
+    def val(self):
+        r = self.rng
+        return r.choice([I(r.randint(-3, 9)), I(r.randint(0, 5)), A(r.choice("abc")), S("p", I(r.randint(0, 3)), A("q"))])
+
+    def num(self):
+        return I(self.rng.randint(0, 6))
+
+    def body(self, depth, eff, numeric=False):
+        """a deterministic goal that may perform the effects in `eff` (subset of {'yield','state'});
+        numeric: only integers are yielded (for sumall)"""
+        r = self.rng
+        sh = lambda t: S("shift", t)
+        opts = ["true", "unify"]
+        if "yield" in eff:
+            opts += ["yield", "yield", "yield", "fromlist", "countdown"]
+        if "state" in eff:
+            opts += ["incr", "put", "getput"]
+            if "yield" in eff:
+                opts += ["getyield"]
+        if depth > 0:
+            opts += ["ite", "call", "seq", "seq", "seq", "userpred"]
+            if "yield" in eff and not numeric:
+                opts += ["collect", "take", "innerstate"]
+            if "yield" in eff:
+                opts += ["sumall"]
+            if "state" in eff:
+                opts += ["collectput"]
+        k = r.choice(opts)
+        self.features.add(k)
+        if k == "true":
+            return A("true")
+        if k == "seq":
+            return conj(self.body(depth - 1, eff, numeric), self.body(depth - 1, eff, numeric))
+        if k == "unify":
+            return S("=", self.fresh(), self.val())
+        if k == "yield":
+            return sh(S("yield", self.num() if numeric else self.val()))
+        if k == "fromlist":
+            return self.P("fromlist", lst([self.num() if numeric else self.val() for _ in range(r.randint(0, 4))]))
+        if k == "countdown":
+            return self.P("countdown", I(r.randint(-1, 4)))
+        if k == "incr":
+            return self.P("incr")
+        if k == "put":
+            return sh(S("put", self.num()))
+        if k == "getput":
+            x, y = self.fresh(), self.fresh()
+            return conj(sh(S("get", x)), S("is", y, S("+", S("*", x, I(r.randint(1, 3))), I(r.randint(0, 2)))),
+                        sh(S("put", y)))
+        if k == "getyield":
+            x = self.fresh()
+            return conj(sh(S("get", x)), sh(S("yield", x)))
+        if k == "ite":
+            if "state" in eff and r.random() < 0.6:
+                x = self.fresh()
+                return conj(sh(S("get", x)),
+                            ite(S(r.choice(["<", ">=", "=:="]), x, self.num()),
+                                self.body(depth - 1, eff, numeric), self.body(depth - 1, eff, numeric)))
+            c = r.choice([S("<", I(1), I(2)), S(">", I(1), I(2)), S("==", A("a"), A("b")), A("true"),
+                          S("==", A("a"), A("a")), A("fail")])
+            return ite(c, self.body(depth - 1, eff, numeric), self.body(depth - 1, eff, numeric))
+        if k == "call":
+            return S("call", self.body(depth - 1, eff, numeric))
+        if k == "userpred":
+            # a user predicate whose clause body shifts in the middle (the continuation then contains a
+            # proper environment chunk of that clause)
+            self.npred += 1
+            name = "gen%d" % self.npred
+            b = self.body(depth - 1, eff, numeric)
+            self.extra.append((self.P(name), b))
+            return self.P(name)
+        if k == "collect":
+            l = self.fresh()
+            return conj(self.P("collect", self.body(depth - 1, eff | {"yield"}), l), sh(S("yield", l)))
+        if k == "take":
+            l = self.fresh()
+            return conj(self.P("take", I(r.randint(0, 3)), self.body(depth - 1, eff | {"yield"}), l), sh(S("yield", l)))
+        if k == "sumall":
+            s = self.fresh()
+            return conj(self.P("sumall", self.body(depth - 1, (eff - {"state"}) | {"yield"}, True), s), sh(S("yield", s)))
+        if k == "innerstate":
+            s = self.fresh()
+            return conj(self.P("runstate", self.body(depth - 1, eff | {"state"}), self.num(), s), sh(S("yield", S("st", s))))
+        if k == "collectput":
+            l = self.fresh()
+            return conj(self.P("collect", self.body(depth - 1, eff | {"yield"}), l), sh(S("put", l)))
+        raise AssertionError(k)
+
+
+def gen_cont_case(rng, cid, kind=None):
+    sfx = "_" + cid
+    g = ContGen(rng, sfx)
+    P = g.P
+    R = Vr("R")
+    sh = lambda t: S("shift", t)
+    kind = kind or rng.choice(["collect_state", "collect_state", "state_collect", "state_collect", "collect", "take",
+                               "sumall", "noreset", "noshift", "law", "nearest", "reuse", "deepchunk"])
+    depth = rng.choice([1, 2, 2, 3, 3, 4])
+    L, Sv, B, C, K, X, Y, Z = (Vr(n) for n in ("L", "Sv", "B", "C", "K", "X", "Y", "Z"))
+    if kind == "collect_state":
+        body = conj(P("collect", P("runstate", g.body(depth, {"yield", "state"}), g.num(), Sv), L), S("=", R, S("r", L, Sv)))
+    elif kind == "state_collect":
+        body = conj(P("runstate", P("collect", g.body(depth, {"yield", "state"}), L), g.num(), Sv), S("=", R, S("r", L, Sv)))
+    elif kind == "collect":
+        body = P("collect", g.body(depth, {"yield"}), R)
+    elif kind == "take":
+        body = P("take", I(rng.randint(0, 4)), g.body(depth, {"yield"}), R)
+    elif kind == "sumall":
+        body = P("sumall", g.body(depth, {"yield"}, True), R)
+    elif kind == "noreset":
+        # shift/1 without an enclosing reset/3 (after the enclosing resets are finished): fails in scryer
+        body = conj(P("collect", g.body(1, {"yield"}), L), g.body(1, set()), sh(S("yield", g.val())), S("=", R, L))
+    elif kind == "noshift":
+        # reset(G,B,C) == (G, C = none) when G does not shift
+        body = conj(S("reset", conj(g.body(depth, set()), S("=", X, g.val())), B, C), S("=", R, S("r", C, X)))
+    elif kind == "law":
+        # reset((P, shift(T), Rest), B, C): B = T, the continuation is exactly Rest
+        v1, v2 = g.val(), g.val()
+        body = conj(S("reset", conj(S("=", X, v1), sh(S("b", X)), S("=", Y, v2)), B, C),
+                    ite(S("var", Y), S("=", Z, A("rest_not_yet_run")), S("=", Z, A("rest_already_run"))),
+                    S("=", C, S("cont", K)), S("call", K),
+                    S("=", R, S("r", B, Z, Y)))
+    elif kind == "nearest":
+        # the inner reset catches the inner shift; the outer one the shift made after the inner reset ended
+        B1, C1, B2, C2, T1 = (Vr(n) for n in ("B1", "C1", "B2", "C2", "T1"))
+        v1, v2 = g.val(), g.val()
+        body = conj(S("reset", conj(S("reset", conj(sh(v1), S("=", X, A("inner_resumed"))), B1, C1),
+                                    sh(v2), S("=", Y, A("outer_resumed"))), B2, C2),
+                    ite(S("var", X), S("=", T1, A("inner_suspended")), S("=", T1, X)),
+                    S("=", C2, S("cont", K)), S("call", K),
+                    S("=", R, S("r", B1, B2, T1, Y)))
+    elif kind == "reuse":
+        # a continuation is a term: resumed inside a NEW reset it can shift again (re-entrant)
+        B2, C2 = Vr("B2"), Vr("C2")
+        v1, v2 = g.val(), g.val()
+        body = conj(S("reset", conj(sh(S("one", v1)), sh(S("two", v2)), S("=", X, A("end"))), B, C),
+                    S("=", C, S("cont", K)),
+                    S("reset", K, B2, C2), S("=", C2, S("cont", Z)), S("reset", Z, Y, Sv),
+                    S("=", R, S("r", B, B2, Sv, X)))
+    else:  # deepchunk: the shift happens several user-predicate calls below the reset
+        n = rng.randint(2, 5)
+        for i in range(n, 0, -1):
+            inner = P("d%d" % (i + 1)) if i < n else sh(S("yield", I(0)))
+            g.extra.append((P("d%d" % i), conj(sh(S("yield", I(i))), inner, sh(S("yield", I(-i))))))
+        body = P("collect", P("d1"), R)
+        g.features.add("deepchunk%d" % n)
+    clauses = cont_library(sfx) + g.extra + [(P("main", R), body)]
+    text = "\n".join("':-'(%s,%s)." % (canon(h), canon(b)) if b is not None else canon(h) + "." for h, b in clauses) + "\n"
+    mtext = "\\n".join("':-'(%s,%s)" % (canon(h), canon(b)) if b is not None else canon(h) for h, b in clauses)
+    q = canon(P("main", R))
+    return {"id": cid, "fam": "cont", "kind": kind, "features": sorted(g.features), "text": text,
+            "body": canon(body),
+            "impl": ["Q\t%su\t1\tuse_module(library(cont))." % cid,
+                     "L\t%sl\tuser\t%s" % (cid, esc(text)),
+                     "Q\t%sq\t3\t%s." % (cid, q)],
+            "model": ["delim\t%sM\t200000\t%s\t%s\tR" % (cid, mtext, q)]}
+
+
+VAR_TOKEN = re.compile(r"(?<![\w'])[A-Z_]\w*")
+
+
+def canon_result(s):
+    """quoted atoms stay; bare identifiers starting with an upper-case letter or _ are variables"""
+    out, i, n = [], 0, len(s)
+    while i < n:
+        if s[i] == "'":
+            j = i + 1
+            while j < n and s[j] != "'":
+                j += 2 if s[j] == "\\" else 1
+            out.append(s[i:j + 1])
+            i = j + 1
+        elif s[i] == '"':
+            j = s.index('"', i + 1)
+            out.append(s[i:j + 1])
+            i = j + 1
+        elif s[i].isupper() or s[i] == "_":
+            j = i
+            while j < n and (s[j].isalnum() or s[j] == "_"):
+                j += 1
+            out.append("_")
+            i = j
+        else:
+            out.append(s[i])
+            i += 1
+    return "".join(out)
+
+
+def judge_cont(c, impl, model, findings, stats, verbose=False):
+    cid = c["id"]
+    keep = {k: c[k] for k in ("id", "fam", "kind", "features", "text", "body", "impl", "model")}
+    m = model.get(cid + "M", "missing")
+    r = impl.get(cid + "q", "missing")
+    load = impl.get(cid + "l", "missing")
+    if verbose:
+        print("  impl=%s\n  model=%s" % (r, m))
+    sig = {"family": "cont", "kind": c["kind"]}
+    if load != "loaded":
+        findings.append(core.Finding("disagreement", dict(sig, what="load", out=load[:100]), "program did not load", keep))
+        return False
+    if m.startswith("success R="):
+        want = "{R=%s}" % canon_result(m[len("success R="):])
+        if want == "{R=_}":
+            want = "true"
+    elif m == "failure":
+        want = "false"
+    elif m.startswith("error "):
+        want = "error:" + canon_result(m[6:])
+    else:
+        findings.append(core.Finding("disagreement", dict(sig, what="model-" + m.split(" ")[0]),
+                                     "the model does not speak about this program: %s" % m[:100], keep))
+        return False
+    parts = r.split(" ;; ")
+    got = parts[0]
+    if got.startswith("{R=") and got.endswith("}"):
+        got = "{R=%s}" % canon_result(got[3:-1])
+    elif got.startswith("error("):
+        got = canon_result(got)
+    if got.startswith("error('error'("):
+        got = "error:" + got[len("error('error'("):].rsplit(",", 1)[0]
+    rest = parts[1:]
+    stats["outcomes"][want.split(":")[0] if want.startswith("error") else ("false" if want == "false" else "success")] = \
+        stats["outcomes"].get(want.split(":")[0] if want.startswith("error") else ("false" if want == "false" else "success"), 0) + 1
+    if got != want or any(x not in ("false",) for x in rest):
+        findings.append(core.Finding("violation", dict(sig, what="result", feature=",".join(c["features"])[:60]),
+                                     "main: implementation %s ; model %s" % (r[:300], m[:300]), keep))
+        return False
+    return True
 
 
 def run(ctx):
@@ -474,6 +864,16 @@ def run(ctx):
         cases = rep
     else:
         cases = diff.load_corpus("C38") + gen_tab_cases(rng, tier)
+        ncont = 400 if tier == "quick" else 8000
+        # the fixed law-shaped kinds first (each at least 10 times), then the random mix
+        k = 0
+        for kind in ("noreset", "noshift", "law", "nearest", "reuse", "deepchunk"):
+            for _ in range(10):
+                cases.append(gen_cont_case(rng, "k%d" % k, kind))
+                k += 1
+        for _ in range(ncont):
+            cases.append(gen_cont_case(rng, "k%d" % k))
+            k += 1
     t0 = time.time()
     impl, model = diff.run_cases(cases, impl_env=IMPL_ENV)
     # cases with a transient problem (watchdog under machine load, lost machine) are run again alone
@@ -484,7 +884,8 @@ def run(ctx):
         impl.update(impl2)
     core.log("[C38] correspondence run: %d cases, %.1fs, %d retried" % (len(cases), time.time() - t0, len(flaky)))
     findings = []
-    stats = {"queries": 0, "nonempty": 0, "untabled_checked": 0, "modes": {}, "rounds": {}}
+    stats = {"queries": 0, "nonempty": 0, "untabled_checked": 0, "modes": {}, "rounds": {}, "outcomes": {}}
+    kinds, feats, ncontc = {}, {}, 0
     agree = 0
     shapes = {}
     distinct = set()
@@ -497,13 +898,27 @@ def run(ctx):
             if any(b and any(x[0] in c["prog"]["idb"] for x in b) for _, b in c["prog"]["rules"]):
                 distinct.add(re.sub(r"_t\d+n?", "", c["text"]))
             agree += 1 if ok else 0
+        elif c.get("fam") == "cont":
+            if rep is not None:
+                print("replay %s (%s)\n%s" % (c["id"], c["kind"], c["text"]))
+            ok = judge_cont(c, impl, model, findings, stats, verbose=rep is not None)
+            ncontc += 1
+            kinds[c["kind"]] = kinds.get(c["kind"], 0) + 1
+            for ft in c["features"]:
+                feats[ft] = feats.get(ft, 0) + 1
+            if c["kind"] not in ("noshift",):
+                distinct.add(c["kind"] + c["body"].replace("_" + c["id"], ""))
+            agree += 1 if ok else 0
     return {
         "evaluations": len(cases),
         "distinct_nontrivial": len(distinct),
         "rule": "tabling: a case is one generated Datalog program (shape left/right/double/mutual/mutual3/sg/reach/twopaths/"
                 "random/nonrec/rightdag over a random relation on 2..6 constants, or an exhaustively enumerated small digraph) "
                 "with up to 8 queries in the modes ff/bf/fb/bb/f0f0; non-trivial = some rule body calls a tabled predicate; "
-                "distinct by program text",
+                "distinct by program text. cont: a case is one generated deterministic program over library(cont) (kinds: "
+                "collect/take/sumall/state handlers nested in both orders with effect forwarding, reset without shift, shift without "
+                "reset, the capture law, nearest-reset, re-entrant reuse, shift below several user-predicate frames) whose main/1 "
+                "result is compared with the frame-stack model; non-trivial = not the no-shift kind; distinct by main body",
         "samples": [c["text"] for c in cases[:1]] + [c["text"] for c in cases[-2:]],
         "traces_validated_against_impl": agree,
         "disagreements_checked": len(cases) - agree,
@@ -514,6 +929,10 @@ def run(ctx):
         "query_modes": stats["modes"],
         "fixpoint_rounds_histogram": stats["rounds"],
         "shapes": shapes,
+        "cont_cases": ncontc,
+        "cont_kinds": kinds,
+        "cont_features": feats,
+        "cont_outcomes": stats["outcomes"],
         "exhaustive": False,
         "findings": findings,
     }
